@@ -98,7 +98,8 @@ class GenBinding:
                 [{"op": "partial_fit", "rows": [9, 10]}] + q,
                 [{"op": "add_arm", "arm": "d"}] + q + [{"op": "partial_fit", "rows": [7, 8, 9, 10]}] + q,
                 [{"op": "remove_arm", "arm": first}] + q,
-                [{"op": "fit", "rows": [2, 2]}] + q + [{"op": "warm_start", "q": [1, 1]}] + q]
+                [{"op": "fit", "rows": [2, 2]}] + q + [{"op": "warm_start", "q": [1, 1]}] + q,
+                [{"op": "fit", "rows": [5, 2, 4]}] + q]      # refits of two and of three rows: as many as a short history had
 
     def independent_arms(self):
         """One self-contained model per arm, deterministic expectations."""
